@@ -15,6 +15,7 @@ import (
 	"math"
 	"os"
 	"strconv"
+	"sync"
 	"time"
 )
 
@@ -31,6 +32,7 @@ type T struct {
 	rd     *os.File
 	wr     *os.File
 	outc   chan string
+	threads []func()
 }
 
 type assumeFailed struct{}
@@ -258,6 +260,24 @@ func (t *T) StdoutEnd() string {
 	s := <-t.outc
 	t.rd.Close()
 	return s
+}
+
+// Go registers a thread body and Wait runs the registered bodies: natively
+// as real goroutines (the replay runs under the race detector), under the
+// engine one after the other in every order, with all accesses logged.
+func (t *T) Go(f func()) { t.threads = append(t.threads, f) }
+
+func (t *T) Wait() {
+	var wg sync.WaitGroup
+	for _, f := range t.threads {
+		wg.Add(1)
+		go func(f func()) {
+			defer wg.Done()
+			f()
+		}(f)
+	}
+	wg.Wait()
+	t.threads = nil
 }
 
 // SymCtx is a context whose Done channel becomes ready from poll K on.
